@@ -175,6 +175,14 @@ func condFamilies() []Scenario {
 	st = append(st, Step{Op: "events", Kind: "perform", Conf: 1, OnlyNew: true})
 	st = append(st, condCycle([]int{0, 1, 2, 3, 4, 5, 6}, "mutate", []int{5, 6, 7}, liveBound, nil)...)
 	ss = append(ss, Scenario{Family: "cond-minimal-members", N: 7, F: 2, Byz: []int{5, 6}, Steps: st})
+	// more conditional upkeeps eligible at once than one observation may propose (limit 5 per type): every honest
+	// observation must still pass its peers' validation, and all of them are agreed within two proposal rounds more
+	for _, k := range []int{6, 7, 11} {
+		cs := seqInts(20, 20+k)
+		st = []Step{{Op: "cond", Nodes: all4, Logs: cs}}
+		st = append(st, condCycle(all4, "honest", cs, liveBound+2*((k+4)/5), nil)...)
+		ss = append(ss, Scenario{Family: fmt.Sprintf("%d-conditionals-eligible-at-once", k), N: 4, F: 1, Byz: []int{3}, Steps: st})
+	}
 	// recovery path: neighbouring honest oracles each propose a different missed log in the same round (same position of
 	// their proposal lists); both are coordinated, checked by everyone and agreed, and the rounds after that still work
 	for _, byz := range []string{"honest", "craft"} {
